@@ -213,6 +213,12 @@ class Context:
                 #       and their related description.
                 failed_processes.update({process for process in status.running_processes()
                                          if process.invalidate_identifier(status.identifier)})
+                # a process that was STOPPING on the Supvisors instance is not considered as running on it,
+                # but the Supvisors instance is still listed: no more event can be expected from it
+                # NOTE: this is not declared as a process failure because the process was being stopped
+                for process in status.processes.values():
+                    if status.identifier in process.running_identifiers:
+                        process.invalidate_identifier(status.identifier)
         # trigger the corresponding Supvisors events
         self.publish_process_failures(failed_processes)
         #  return the identifiers of all invalidated Supvisors instances and the processes declared in failure
